@@ -23,7 +23,8 @@ func init() {
 				t := texts[i]
 				cases = append(cases, Case{ID: "check " + strings.ReplaceAll(t, "\n", "\\n"), Pkg: "internal/cmd", Fn: "ZZC20Check", Args: []string{t}, Tag: "check-command"})
 			}
-			for _, t := range append(append([]string{}, validTemplates...), "send [USD 1] (\n source = @world\n destination = @d\n)", "vars {\n number $unused\n}\nsend [USD 1] (\n source = @world\n destination = @d\n)") {
+			for _, t := range append(append([]string{}, validTemplates...), "send [USD 1] (\n source = @world\n destination = @d\n)", "vars {\n number $unused\n}\nsend [USD 1] (\n source = @world\n destination = @d\n)",
+				"send [USD 10] (\n  source = @world\n  destination = {\n    1/2 to @b\n    1/4 to @c\n  }\n)", "send [USD 10] (\n  source = {\n    1/2 from @a\n    3/4 from @b\n  }\n  destination = @c\n)\nset_tx_meta(\n  \"k\",\n  1,\n  2\n)") {
 				cases = append(cases, Case{ID: "check " + strings.ReplaceAll(t, "\n", "\\n"), Pkg: "internal/cmd", Fn: "ZZC20Check", Args: []string{t}, Tag: "check-command"})
 			}
 			type rc struct{ script, spec, accounts, meta, flag string }
@@ -38,6 +39,11 @@ func init() {
 				{"send [USD 1] (\n source = @a\n", "", "a", "", "0"},
 				{"set_tx_meta(\"k\", 1/0)", "", "", "", "0"},
 				{"vars {\n number $n\n}\nset_tx_meta(\"big\", $n + $n)", "n=num", "", "", "0"},
+				{"vars {\n number $n\n number $missing\n}\nset_tx_meta(\"k\", $n)", "n=num", "", "", "0"},
+				{"vars {\n monetary $m\n}\nsend $m (\n source = @world\n destination = @d\n)", "m=text:USD 12x", "", "", "0"},
+				{"vars {\n monetary $m\n}\nsend $m (\n source = @world\n destination = @d\n)", "m=mon:USD", "", "", "0"},
+				{"nope(1)", "", "", "", "0"},
+				{"vars {\n monetary $c\n}\nsend [USD 10] (\n source = max $c from @a\n destination = @d\n)", "c=mon:EUR", "a", "", "0"},
 			}
 			for _, r := range runs {
 				for _, ch := range []string{"raw", "stdin", "files"} {
